@@ -501,6 +501,28 @@ def _content(dump):
     return out
 
 
+def _untrimmed(dump):
+    """descriptions are white-space-trimmed on load: every type and feature description equals its strip()"""
+    for n, d, _s, fs in dump["types"]:
+        if d is not None and d != d.strip():
+            return f"type {n!r} has description {d!r}"
+        for f in fs:
+            if f[2] is not None and f[2] != f[2].strip():
+                return f"feature {n}:{f[0]} has description {f[2]!r}"
+    return None
+
+
+def _emitted_vs_trimmed(lifted, exp):
+    """the re-emitted descriptor declares every user type with exactly the trimmed descriptions (an empty one = absent)"""
+    for t in lifted:
+        if t["n"] in BI:
+            continue
+        got = (t["d"], t["s"], [(f["n"], f["d"], f["r"], f["e"], f["m"]) for f in t["f"]])
+        if t["n"] not in exp or got != exp[t["n"]]:
+            return f"type {t['n']!r}: written {got!r}, trimmed declaration {exp.get(t['n'])!r}"
+    return None
+
+
 def _diff(a, b):
     for k in sorted(set(a) | set(b)):
         if a.get(k) != b.get(k):
@@ -531,6 +553,15 @@ def oracle(cassis, sc, obs):
         return f"roundtrip-load: load_typesystem(ts.to_xml()) raised {rt['exc']}"
     if _content(rt["dump"]) != exp:
         return "roundtrip-content: load_typesystem(ts.to_xml()) declares something else: " + _diff(_content(rt["dump"]), exp)
+    for what, r in [("load_typesystem(ts.to_xml())", rt)] + [("a harness-written descriptor", r) for r in obs["runs"]]:
+        if r["res"] != "ok":
+            continue
+        m = _untrimmed(r["dump"])
+        if m:
+            return f"untrimmed-description: after {what}: {m}"
+        m = _emitted_vs_trimmed(r["lift"], exp)
+        if m:
+            return f"reemit-trimmed: re-emitting the type system loaded from {what} does not give the trimmed descriptor: {m}"
     if _clean(sc) and rt["x"] != obs["x"]:
         return "reemit-bytes: to_xml(load(to_xml(ts))) differs from to_xml(ts)"
     rt2 = obs.get("rt2")
